@@ -37,6 +37,10 @@ type Case struct {
 	Script *Script `json:"script,omitempty"`
 	AP     int     `json:"ap,omitempty"`
 	BP     int     `json:"bp,omitempty"`
+	// mid-stream stores (mid.go): changes the responder stores between the creation of the response producer and a
+	// later batch.  MidGen: generate them at run time against the real responder (then recorded in Mid).
+	Mid    []MidStep `json:"mid,omitempty"`
+	MidGen *MidGen   `json:"mid_gen,omitempty"`
 }
 
 type Batch struct {
@@ -104,6 +108,8 @@ type outcome struct {
 	panicked string
 	nonterm bool // the batch-count guard was hit: the stream did not end with an empty batch
 	sw      *scriptWorld
+	chg     []storeObs // the responder's store as found by the calls before which something was stored (sigma = at request time)
+	final   []int
 }
 
 func runCase(w *World, c *Case) (o outcome) {
@@ -167,7 +173,42 @@ func runCase(w *World, c *Case) (o outcome) {
 	// batch-count guard: a correct stream sends every stored change at most once, so it has at most len(ids)
 	// non-empty batches; a stream that is still going after that is reported, not suffered
 	o.nonterm = true
-	for guard := 0; guard < len(ids)+5; guard++ {
+	ms := &midState{c: c, dm: dm, a: a}
+	given := c.Mid
+	if c.MidGen != nil && len(given) == 0 {
+		ms.g = vlib.NewRand(c.MidGen.Seed)
+	}
+	c.MidGen = nil
+	c.Mid = nil
+	o.final = ids
+	for guard := 0; guard < len(o.final)+5; guard++ {
+		// forced interleaving: what the responder stores after the producer exists and before this call
+		var steps []MidStep
+		if ms.g != nil {
+			steps = ms.gen(guard)
+		} else {
+			for _, st := range given {
+				if st.At == guard {
+					steps = append(steps, st)
+				}
+			}
+		}
+		stored := false
+		for _, st := range steps {
+			if ms.apply(st) {
+				stored = true
+			}
+			c.Mid = append(c.Mid, st)
+		}
+		if stored {
+			sids, sall, _ := a.Stored()
+			so := storeObs{at: guard, ids: sids}
+			for _, sc := range sall {
+				so.sizes = append(so.sizes, len(sc.RawChange))
+			}
+			o.chg = append(o.chg, so)
+			o.final = sids
+		}
 		resp, err := prod.NewResponse(c.MaxSize)
 		if err != nil {
 			panic(err)
@@ -203,7 +244,11 @@ func nl(v []int) string {
 
 func caseTerm(c Case, o outcome) string {
 	var sb strings.Builder
-	sb.WriteString("(CResp [")
+	if len(o.chg) > 0 {
+		sb.WriteString("(CMid [")
+	} else {
+		sb.WriteString("(CResp [")
+	}
 	for i, ch := range c.Dag {
 		if i > 0 {
 			sb.WriteString(";")
@@ -218,6 +263,15 @@ func caseTerm(c Case, o outcome) string {
 		}
 		ch := dm[id]
 		fmt.Fprintf(&sb, "(mkSE (mkChange %d %s %d %s) %d)", ch.ID, nl(ch.Prev), ch.Snap, vlib.Bool(ch.IsSnap), o.sizes[i])
+	}
+	if len(o.chg) > 0 {
+		sb.WriteString("] [")
+		for i, so := range o.chg {
+			if i > 0 {
+				sb.WriteString(";")
+			}
+			fmt.Fprintf(&sb, "(%d,%s)", so.at, seTerm(dm, so.ids, so.sizes))
+		}
 	}
 	fmt.Fprintf(&sb, "] %s %s %s %s %d %s [", nl(o.ourPath), nl(c.ReqPath), nl(c.ReqHeads), nl(o.haveB), c.MaxSize, vlib.Bool(o.ok))
 	for i, b := range o.batches {
@@ -254,6 +308,21 @@ func (r *runner) run(c Case) {
 		}
 	}
 	nontrivial := len(o.batches) >= 1 && sent >= 2
+	if len(o.chg) > 0 {
+		// a mid-stream case counts if the scan of a later batch really walked over a change stored meanwhile
+		walked := walkedOver(o.final, o.sigma, c.Mid, o.batches)
+		nontrivial = nontrivial && walked
+		r.out.Stat("mid_cases")
+		if walked {
+			r.out.Stat("mid_store_walked_over_by_a_later_batch")
+		}
+		for _, st := range c.Mid {
+			r.out.Stat("mid_step_" + st.K)
+			if st.At > 0 {
+				r.out.Stat("mid_step_after_first_batch")
+			}
+		}
+	}
 	idx := r.out.Add(term, c, term, nontrivial)
 	if o.nonterm {
 		r.out.Violation(idx, "nonterminating", fmt.Sprintf("the response stream did not end with an empty batch within %d batches "+
@@ -348,6 +417,9 @@ func main() {
 		r.run(Case{Script: merge, AP: 0, BP: -1, MaxSize: ms, Variant: "heads_and_path"})
 		r.run(Case{Script: merge, AP: 0, BP: 1, MaxSize: ms, Variant: "heads_and_path"})
 	}
+	for _, c := range fixedMidCases() {
+		r.run(c)
+	}
 	nDag := 110 * o.Budget
 	if o.Tier == "thorough" {
 		nDag = 1200 * o.Budget
@@ -385,6 +457,15 @@ func main() {
 				c.MaxSize = limits[g.Intn(len(limits))]
 				r.run(c)
 			}
+			if q == 0 && k%2 == 0 {
+				// the same request while a third peer / the responder itself stores changes during the stream
+				c.MaxSize = limits[g.Intn(3)]
+				if g.Chance(1, 6) {
+					c.MaxSize = limits[3]
+				}
+				c.MidGen = &MidGen{Seed: g.U64()}
+				r.run(c)
+			}
 		}
 	}
 	// script worlds: replicas built through the tree's own operations (remote batches + LOCAL AddContent on
@@ -412,6 +493,11 @@ func main() {
 				c.Variant = "path_only"
 			}
 			r.run(c)
+			if q == 0 && k%2 == 0 {
+				c.MaxSize = limits[g.Intn(3)]
+				c.MidGen = &MidGen{Seed: g.U64()}
+				r.run(c)
+			}
 		}
 	}
 	r.out.Finish("one case = one request answered by a real responder until the first empty batch, then applied to a copy of the "+
@@ -419,6 +505,9 @@ func main() {
 		"snapshots, concurrent snapshots, requester with only the root) and from script worlds (replicas built through the object "+
 		"tree's own operations: remote AddRawChanges batches of concurrent branches of different lengths, LOCAL AddContent / snapshot on "+
 		"multi-head trees, exchanges of stored prefixes, reopen); limits 1 byte .. 10 MiB; request variants heads+path / "+
-		"empty request / path only; a case is non-trivial if at least one batch and at least two changes are sent; distinct by full case term",
+		"empty request / path only; mid-stream cases: the responder stores changes of a third peer (concurrent branches out of older "+
+		"changes / heads, small and oversized) or local ones between the creation of the producer and a later batch (forced, single-threaded); "+
+		"a case is non-trivial if at least one batch and at least two changes are sent (mid-stream cases: and the scan of a later batch "+
+		"walked over a change stored meanwhile); distinct by full case term",
 		r.samples, nil)
 }
